@@ -29,6 +29,7 @@ type c26Fn struct {
 type c26Ctx struct {
 	funcs    map[string]c26Fn
 	validFn  bool // isValidSwampName has the expected definition
+	badKeyFn bool // isValidKey exists but is not the expected definition
 	notes    []string
 	respType map[string]int // response message -> number of fields (-1 unknown)
 }
@@ -50,6 +51,7 @@ type c26Env struct {
 	nres      int
 	depth     int
 	top       bool // scanning the handler's own statement list
+	keyVar    string // loop variable ranging over the key-bearing children of the entry (KeyValues, KeySlicePairs, Patches)
 }
 
 func (e *c26Env) clone() *c26Env {
@@ -202,6 +204,14 @@ func (e *c26Env) cond(x ast.Expr) (string, bool) {
 			}
 			if c, ok := v.X.(*ast.CallExpr); ok && e.f.Str(c.Fun) == "isValidSwampName" && len(c.Args) == 1 && e.isNameExpr(c.Args[0]) {
 				return "nameInvalid", true
+			}
+			if c, ok := v.X.(*ast.CallExpr); ok && e.f.Str(c.Fun) == "isValidKey" && len(c.Args) == 1 {
+				if suf, ok := e.entrySuffix(c.Args[0]); ok && (suf == ".Key" || suf == ".GetKey()") {
+					return "keyInvalid", true
+				}
+				if e.keyVar != "" && (e.f.Str(c.Args[0]) == e.keyVar+".GetKey()" || e.f.Str(c.Args[0]) == e.keyVar+".Key") {
+					return "keyInvalid", true
+				}
 			}
 			c, ok := e.cond(v.X)
 			if !ok {
@@ -488,6 +498,21 @@ func (cx *c26Ctx) scan(e *c26Env, stmts []ast.Stmt, p *c26Prog) {
 				p.val = append(p.val, lp.steps...)
 				continue
 			}
+			if suf, ok := e.entrySuffix(v.X); ok && c26KeyChildren[suf] {
+				if id, ok := v.Value.(*ast.Ident); ok && len(v.Body.List) == 1 {
+					if ifs, ok := v.Body.List[0].(*ast.IfStmt); ok {
+						sub := e.clone()
+						sub.boolLoc, sub.capVar, sub.existVar, sub.singleVar = e.boolLoc, e.capVar, e.existVar, e.singleVar
+						sub.top = false
+						sub.keyVar = id.Name
+						lp := &c26Prog{}
+						if cx.scanIf(sub, ifs, lp) && len(lp.steps) == 1 && strings.HasSuffix(lp.steps[0], " keyInvalid") {
+							p.add(lp.steps[0])
+							continue
+						}
+					}
+				}
+			}
 			p.bad("%s:%d range not recognised: %s", f.Path, f.Line(v), f.Str(v.X))
 			return
 		case *ast.AssignStmt:
@@ -733,7 +758,7 @@ func (e *c26Env) condHarmless(x ast.Expr) bool {
 			}
 		case *ast.CallExpr:
 			fn := e.f.Str(v.Fun)
-			if fn != "isValidSwampName" && !c26Harmless.MatchString(fn) {
+			if fn != "isValidSwampName" && fn != "isValidKey" && !c26Harmless.MatchString(fn) {
 				ok = false
 			}
 		}
@@ -981,6 +1006,10 @@ type c26Handler struct {
 func (h c26Handler) String() string {
 	return h.name + "|" + h.flags + "|" + h.defers + "|" + strings.Join(h.val, ";") + "|" + strings.Join(h.main, ";")
 }
+
+// repeated children of an entry that carry a treasure key
+var c26KeyChildren = map[string]bool{".GetKeyValues()": true, ".KeyValues": true, ".KeySlicePairs": true, ".GetKeySlicePairs()": true,
+	".GetPatches()": true, ".Patches": true}
 
 var c26EntriesRange = regexp.MustCompile(`^(\w+\.Get(Swamps|Requests|Queries|Targets)\(\)|requests|swamps)$`)
 
@@ -1288,6 +1317,15 @@ func init() {
 			c26Harmless = regexp.MustCompile(c26Harmless.String())
 		}
 
+		// isValidKey (present after the repair): accept only the exact definition
+		if kf, ok := cx.funcs["isValidKey"]; ok {
+			b := strings.Join(strings.Fields(kf.f.Str(kf.fd.Body)), " ")
+			if b != `{ return key != "" && len(key) <= maxKeyLength }` || !strings.Contains(string(kf.f.Src), "const maxKeyLength = 65535") {
+				fs.Err("isValidKey has an unexpected definition: %s", c26Short(b))
+				cx.badKeyFn = true
+			}
+		}
+
 		// checkSwampName
 		{
 			cn, ok := cx.funcs["checkSwampName"]
@@ -1337,6 +1375,10 @@ func init() {
 		sort.Slice(hs, func(a, b int) bool { return hs[a].name < hs[b].name })
 		var lean, show []string
 		for _, h := range hs {
+			if cx.badKeyFn && strings.Contains(h.String(), "keyInvalid") {
+				h.flags += "u"
+				h.why = append(h.why, "isValidKey used but its definition was not recognised")
+			}
 			if !cx.validOrAbsent(h.String()) {
 				h.flags += "u"
 				h.why = append(h.why, "isValidSwampName used but its definition was not recognised")
